@@ -164,7 +164,16 @@ def cart_from_p8(rng, omit):
     empty = carts.game_regions(Game.make_empty_game())
     for n in omit:
         regions[n] = empty[n]
-    g = P8Formatter.from_file(io.BytesIO(rc.write_p8(regions, b'x=1\n', version=8, omit=omit)))
+    # the other sections are written short (trailing default rows left out, as current PICO-8 does); the blank line the format has
+    # before __gff__ then sits inside a short section
+    rowbytes = {'gfx': 64, 'gff': 128, 'map': 128, 'music': 4, 'sfx': 68}
+    trim = tuple(n for n in rowbytes if n not in omit)
+    for n in trim:
+        nrows = len(regions[n]) // rowbytes[n]
+        keep = max(1, rng.randrange(nrows)) * rowbytes[n]
+        regions[n] = bytes(regions[n][:keep]) + bytes(empty[n][keep:])
+    g = P8Formatter.from_file(io.BytesIO(rc.write_p8(regions, b'x=1\n', version=8, omit=omit, trim=trim,
+                                                     label=carts.random_bytes(rng, 8192) if rng.random() < 0.5 else None)))
     return g, Shadow(b''.join(regions[n] for n, _ in REGIONS))
 
 
@@ -179,6 +188,7 @@ def run_aliasing(ctx, rng, spec):
             ga, sa = cart_from_p8(rng, omit)
             gb, sb = cart_from_p8(rng, omit)
             ctx.feature('two_carts_from_p8_omitting_same_sections')
+            ctx.feature('carts_from_p8_with_short_sections')
         else:
             ga, sa = _new_game(rng)
             gb, sb = _new_game(rng)
